@@ -2474,3 +2474,298 @@ theorem chainOlderAux_eq_chainAux {σ : Store} (h : ParentsOlder σ) :
         rw [ih k₂ p (by omega) (by omega)]
 
 end Ruschm.Eval
+
+namespace Ruschm.Xform
+
+/-! ## The transformer depends on the syntax environment only through lookups -/
+
+/-- scope `a` shadowing scope `b` looks like scope `h` -/
+def LookupSq (a b h : List (String × Macro.Rules)) : Prop :=
+  ∀ k, h.lookup k = (a.lookup k).or (b.lookup k)
+
+/-- `s₂` is `s₁` with the two scopes at depth `d`, `d+1` squashed into one; `t` lies below them -/
+inductive SqRel (t : SynEnv) : Nat → SynEnv → SynEnv → Prop
+  | here {a b h} : LookupSq a b h → SqRel t 0 (a :: b :: t) (h :: t)
+  | there {d c s₁ s₂} : SqRel t d s₁ s₂ → SqRel t (d+1) (c :: s₁) (c :: s₂)
+
+theorem scopeInsert_lookup (scope : List (String × Macro.Rules)) (k : String) (r : Macro.Rules) (k' : String) :
+    (scopeInsert scope k r).lookup k' = if k' = k then some r else scope.lookup k' := by
+  have hbeq : ∀ a : String, (k' == a) = decide (k' = a) := fun a => by
+    by_cases h : k' = a <;> simp [h]
+  induction scope with
+  | nil =>
+    simp only [scopeInsert, List.lookup, hbeq]
+    by_cases h : k' = k <;> simp [h]
+  | cons a scope ih =>
+    obtain ⟨a, b⟩ := a
+    simp only [scopeInsert]
+    by_cases ha : a = k
+    · subst ha
+      simp only [if_true, List.lookup, hbeq]
+      by_cases h : k' = a <;> simp [h]
+    · simp only [ha, if_false, List.lookup, ih, hbeq]
+      by_cases h' : k' = a
+      · subst h'; simp [ha]
+      · simp [h']
+
+/-- what `inChild` does to the environment its argument returns -/
+def popScope : SynEnv → SynEnv
+  | _ :: s' => s'
+  | [] => []
+
+/-- a depth-indexed relation between syntax environments that every primitive of the transformer
+respects: equal lookups, closed under `define`, under opening and under closing a child scope -/
+class EnvRel (R : Nat → SynEnv → SynEnv → Prop) : Prop where
+  get? : ∀ {d s₁ s₂}, R d s₁ s₂ → ∀ k, s₁.get? k = s₂.get? k
+  define : ∀ {d s₁ s₂}, R d s₁ s₂ → ∀ k r, R d (s₁.define k r) (s₂.define k r)
+  push : ∀ {d s₁ s₂}, R d s₁ s₂ → R (d+1) ([] :: s₁) ([] :: s₂)
+  pop : ∀ {d o₁ o₂}, R (d+1) o₁ o₂ → R d (popScope o₁) (popScope o₂)
+
+theorem SqRel.get?' {t d s₁ s₂} (h : SqRel t d s₁ s₂) (k : String) : s₁.get? k = s₂.get? k := by
+  induction h with
+  | here hl =>
+    simp only [SynEnv.get?, hl k]
+    rename_i a b h
+    cases a.lookup k <;> simp
+  | there _ ih => simp only [SynEnv.get?, ih]
+
+theorem SqRel.define' {t d s₁ s₂} (h : SqRel t d s₁ s₂) (k : String) (r : Macro.Rules) :
+    SqRel t d (s₁.define k r) (s₂.define k r) := by
+  cases h with
+  | here hl =>
+    simp only [SynEnv.define]
+    refine .here fun k' => ?_
+    simp only [scopeInsert_lookup, hl k']
+    by_cases hk : k' = k <;> simp [hk]
+  | there h' => simp only [SynEnv.define]; exact .there h'
+
+instance (t : SynEnv) : EnvRel (SqRel t) where
+  get? := SqRel.get?'
+  define := SqRel.define'
+  push := .there
+  pop := fun h => by cases h with | there h' => exact h'
+
+/-- `s₁` is `s₂` with one more, empty, outermost scope — or they are equal -/
+def BotRel (d : Nat) (s₁ s₂ : SynEnv) : Prop :=
+  (s₂.length = d ∧ s₁ = s₂ ++ [[]]) ∨ s₁ = s₂
+
+theorem get?_append_empty (pre : SynEnv) (k : String) : SynEnv.get? (pre ++ [[]]) k = SynEnv.get? pre k := by
+  induction pre with
+  | nil => simp [SynEnv.get?, List.lookup]
+  | cons c pre ih => simp only [List.cons_append, SynEnv.get?, ih]
+
+instance : EnvRel BotRel where
+  get? := fun {d s₁ s₂} h k => by
+    rcases h with ⟨_, rfl⟩ | rfl
+    · exact get?_append_empty s₂ k
+    · rfl
+  define := fun {d s₁ s₂} h k r => by
+    rcases h with ⟨hl, rfl⟩ | rfl
+    · cases s₂ with
+      | nil => exact .inr (by simp [SynEnv.define, scopeInsert])
+      | cons c pre => exact .inl ⟨by simpa [SynEnv.define] using hl, by simp [SynEnv.define]⟩
+    · exact .inr rfl
+  push := fun {d s₁ s₂} h => by
+    rcases h with ⟨hl, rfl⟩ | rfl
+    · exact .inl ⟨by simp [hl], by simp⟩
+    · exact .inr rfl
+  pop := fun {d o₁ o₂} h => by
+    rcases h with ⟨hl, rfl⟩ | rfl
+    · cases o₂ with
+      | nil => simp at hl
+      | cons c pre => exact .inl ⟨by simpa [popScope] using hl, by simp [popScope]⟩
+    · exact .inr rfl
+
+/-- `m` computes the same result in related environments and keeps them related -/
+structure Rel2 (R : Nat → SynEnv → SynEnv → Prop) {α} (m : XM α) : Prop where
+  rel : ∀ d s₁ s₂, R d s₁ s₂ → (m s₁).1 = (m s₂).1 ∧ R d (m s₁).2 (m s₂).2
+
+section combinators
+variable {R : Nat → SynEnv → SynEnv → Prop} [hR : EnvRel R]
+set_option linter.unusedSectionVars false
+
+theorem Rel2.pure {α} (a : α) : Rel2 R (pure a : XM α) := ⟨fun _ _ _ h => ⟨rfl, h⟩⟩
+theorem Rel2.fail {α} (e : SErr) : Rel2 R (fail e : XM α) := ⟨fun _ _ _ h => ⟨rfl, h⟩⟩
+theorem Rel2.lift {α} (x : Except SErr α) : Rel2 R (lift x) := ⟨fun _ _ _ h => ⟨rfl, h⟩⟩
+theorem Rel2.need {α} (x : Option α) : Rel2 R (need x) := by
+  cases x
+  · exact Rel2.fail _
+  · exact Rel2.pure _
+theorem Rel2.identOf (d : Datum) : Rel2 R (identOf d) := Rel2.lift _
+theorem Rel2.expectList (d : Datum) : Rel2 R (expectList d) := Rel2.lift _
+theorem Rel2.defineSyntax (k r) : Rel2 R (defineSyntax k r) := ⟨fun _ _ _ h => ⟨rfl, hR.define h k r⟩⟩
+
+theorem Rel2.bind {α β} {m : XM α} {f : α → XM β} (hm : Rel2 R m) (hf : ∀ a, Rel2 R (f a)) : Rel2 R (m >>= f) := by
+  refine ⟨fun d s₁ s₂ h => ?_⟩
+  obtain ⟨h₁, h₂⟩ := hm.rel d s₁ s₂ h
+  simp only [XM.bind_def]
+  generalize m s₁ = x at h₁ h₂
+  generalize m s₂ = y at h₁ h₂
+  obtain ⟨r₁, e₁⟩ := x
+  obtain ⟨r₂, e₂⟩ := y
+  simp only at h₁ h₂
+  subst h₁
+  cases r₁ with
+  | error e => exact ⟨rfl, h₂⟩
+  | ok a => exact (hf a).rel d e₁ e₂ h₂
+
+/-- reading the environment is allowed when only lookups are made in it -/
+theorem Rel2.getEnv_bind {β} {kw : String} {g : Option Macro.Rules → XM β} (hg : ∀ o, Rel2 R (g o)) :
+    Rel2 R (getEnv >>= fun env => g (env.get? kw)) := by
+  refine ⟨fun d s₁ s₂ h => ?_⟩
+  simp only [XM.bind_def, getEnv, hR.get? h kw]
+  exact (hg _).rel d s₁ s₂ h
+
+theorem Rel2.getEnv_match {β} {kw : String} {A : Macro.Rules → XM β} {B : XM β}
+    (hA : ∀ r, Rel2 R (A r)) (hB : Rel2 R B) :
+    Rel2 R (getEnv >>= fun env => match env.get? kw with
+      | some r => A r
+      | none => B) :=
+  Rel2.getEnv_bind (g := fun o => match o with | some r => A r | none => B) fun o => by
+    cases o
+    · exact hB
+    · exact hA _
+
+theorem Rel2.inChild {α} {m : XM α} (hm : Rel2 R m) : Rel2 R (inChild m) := by
+  refine ⟨fun d s₁ s₂ h => ?_⟩
+  obtain ⟨h₁, h₂⟩ := hm.rel (d+1) ([] :: s₁) ([] :: s₂) (hR.push h)
+  simp only [Xform.inChild]
+  generalize m ([] :: s₁) = x at h₁ h₂
+  generalize m ([] :: s₂) = y at h₁ h₂
+  obtain ⟨r₁, e₁⟩ := x
+  obtain ⟨r₂, e₂⟩ := y
+  simp only at h₁ h₂
+  subst h₁
+  have hp := hR.pop h₂
+  cases e₁ <;> cases e₂ <;> exact ⟨rfl, hp⟩
+
+
+theorem Rel2.mapM_loop {α β} {f : α → XM β} (hf : ∀ a, Rel2 R (f a)) (l : List α) (acc : List β) :
+    Rel2 R (List.mapM.loop f l acc) := by
+  induction l generalizing acc with
+  | nil => simp only [List.mapM.loop]; exact Rel2.pure _
+  | cons a l ih =>
+    simp only [List.mapM.loop]
+    exact Rel2.bind (hf a) fun b => ih _
+
+theorem Rel2.mapM {α β} {f : α → XM β} (hf : ∀ a, Rel2 R (f a)) (l : List α) : Rel2 R (l.mapM f) :=
+  Rel2.mapM_loop hf l []
+
+syntax "rel2_close" : tactic
+macro_rules
+  | `(tactic| rel2_close) => `(tactic| first
+      | exact Rel2.fail _ | exact Rel2.pure _ | exact Rel2.lift _ | exact Rel2.need _ | exact Rel2.identOf _
+      | exact Rel2.expectList _ | exact Rel2.defineSyntax _ _)
+
+theorem Rel2.toFormals (d : Datum) : Rel2 R (toFormals d) := by
+  unfold Xform.toFormals
+  split
+  · simp only; split <;> rel2_close
+  · simp only; split <;> rel2_close
+  · rel2_close
+  · rel2_close
+
+theorem Rel2.toLibName (ds : List Datum) : Rel2 R (toLibName ds) := by
+  unfold Xform.toLibName
+  apply Rel2.mapM
+  intro d
+  split
+  · rel2_close
+  · split <;> rel2_close
+  · rel2_close
+
+theorem Rel2.toExportSpec (d : Datum) : Rel2 R (toExportSpec d) := by
+  unfold Xform.toExportSpec
+  repeat (first | rel2_close | apply Rel2.bind | intro _ | split | dsimp only)
+
+theorem Rel2.toImportSet (n : Nat) (d : Datum) : Rel2 R (toImportSet n d) := by
+  induction n generalizing d with
+  | zero => rw [Xform.toImportSet]; rel2_close
+  | succ n ih =>
+    rw [Xform.toImportSet]
+    repeat (first | rel2_close | exact ih _ | exact Rel2.toLibName _ | apply Rel2.bind | apply Rel2.mapM | intro _ | split | dsimp only)
+
+
+structure RelAll (R : Nat → SynEnv → SynEnv → Prop) (n : Nat) : Prop where
+  stmt : ∀ d, Rel2 R (toStatement n d)
+  expr : ∀ d, Rel2 R (toExpr n d)
+  call : ∀ first args loc, Rel2 R (toCall n first args loc)
+  exprs : ∀ ds, Rel2 R (toExprs n ds)
+  defn : ∀ args, Rel2 R (toDefinition n args)
+  lam : ∀ args, Rel2 R (toLambda n args)
+  body : ∀ ds defs exprs, Rel2 R (toBody n ds defs exprs)
+  lib : ∀ args loc, Rel2 R (toLibrary n args loc)
+  decls : ∀ ds, Rel2 R (toLibDecls n ds)
+  decl : ∀ d, Rel2 R (toLibDecl n d)
+  stmts : ∀ ds, Rel2 R (toStatements n ds)
+
+syntax "rel2_all" term : tactic
+macro_rules
+  | `(tactic| rel2_all $ih) => `(tactic| repeat (first
+      | rel2_close
+      | exact RelAll.stmt $ih _ | exact RelAll.expr $ih _ | exact RelAll.call $ih _ _ _ | exact RelAll.exprs $ih _
+      | exact RelAll.defn $ih _ | exact RelAll.lam $ih _ | exact RelAll.body $ih _ _ _ | exact RelAll.lib $ih _ _
+      | exact RelAll.decls $ih _ | exact RelAll.decl $ih _ | exact RelAll.stmts $ih _
+      | exact Rel2.toFormals _ | exact Rel2.toImportSet _ _ | exact Rel2.toLibName _ | exact Rel2.toExportSpec _
+      | apply Rel2.inChild | apply Rel2.getEnv_match | apply Rel2.bind | apply Rel2.mapM | intro _ | split | dsimp only))
+
+section
+variable {n : Nat} (ih : RelAll R n)
+include ih
+
+theorem rel_expr (d : Datum) : Rel2 R (toExpr (n+1) d) := by
+  rw [toExpr]; rel2_all ih
+theorem rel_call (first args loc) : Rel2 R (toCall (n+1) first args loc) := by
+  rw [toCall]; rel2_all ih
+theorem rel_exprs (ds) : Rel2 R (toExprs (n+1) ds) := by
+  cases ds <;> rw [toExprs] <;> rel2_all ih
+theorem rel_defn (args) : Rel2 R (toDefinition (n+1) args) := by
+  rw [toDefinition]; rel2_all ih
+theorem rel_lam (args) : Rel2 R (toLambda (n+1) args) := by
+  rw [toLambda]; rel2_all ih
+theorem rel_body (ds defs exprs) : Rel2 R (toBody (n+1) ds defs exprs) := by
+  cases ds <;> rw [toBody] <;> rel2_all ih
+theorem rel_lib (args loc) : Rel2 R (toLibrary (n+1) args loc) := by
+  rw [toLibrary]; rel2_all ih
+theorem rel_decls (ds) : Rel2 R (toLibDecls (n+1) ds) := by
+  cases ds <;> rw [toLibDecls] <;> rel2_all ih
+theorem rel_decl (d) : Rel2 R (toLibDecl (n+1) d) := by
+  rw [toLibDecl]; rel2_all ih
+theorem rel_stmts (ds) : Rel2 R (toStatements (n+1) ds) := by
+  cases ds <;> rw [toStatements] <;> rel2_all ih
+theorem rel_stmt (d : Datum) : Rel2 R (toStatement (n+1) d) := by
+  unfold toStatement; rel2_all ih
+end
+
+theorem relAll : ∀ n, RelAll R n
+  | 0 => by
+    constructor <;> intros <;>
+      simp only [toStatement, toExpr, toCall, toExprs, toDefinition, toLambda, toBody, toLibrary, toLibDecls,
+        toLibDecl, toStatements] <;> rel2_close
+  | n+1 =>
+    have ih := relAll n
+    ⟨rel_stmt ih, rel_expr ih, rel_call ih, rel_exprs ih, rel_defn ih, rel_lam ih, rel_body ih, rel_lib ih,
+      rel_decls ih, rel_decl ih, rel_stmts ih⟩
+
+
+end combinators
+
+/-- running a body transformer in a fresh child scope of a non-empty environment gives the result
+it gives in that environment itself -/
+theorem inChild_result_eq {α} {m : XM α} (hm : ∀ R [EnvRel R], Rel2 R m) (s : SynEnv) :
+    (inChild m s).1 = (m s).1 := by
+  have key : (m ([] :: s)).1 = (m s).1 := by
+    cases s with
+    | nil => exact ((hm BotRel).rel 0 [[]] [] (.inl ⟨rfl, rfl⟩)).1
+    | cons h t => exact ((hm (SqRel t)).rel 0 ([] :: h :: t) (h :: t) (.here fun k => by simp)).1
+  rw [← key]
+  simp only [inChild]
+  split <;> (rename_i heq; rw [heq])
+
+/-- a procedure body transforms to the same definitions and expressions in a syntax environment
+and in a fresh child scope of it -/
+theorem toBody_inChild (j : Nat) (bs : List Datum) (s : SynEnv) :
+    (inChild (toBody j bs [] []) s).1 = (toBody j bs [] [] s).1 :=
+  inChild_result_eq (fun R _ => (relAll (R := R) j).body bs [] []) s
+
+end Ruschm.Xform
